@@ -235,6 +235,8 @@ pub struct Entry {
     pub encfile: fn(&str, &mut Rng, usize, u32, bool, bool) -> Vec<String>,
     /// C11: a value and its raw memory: (wire-order sx, hex of size_of::<T>() bytes)
     pub mem_image: fn(&mut Rng, usize) -> (String, String),
+    /// (value, address of the object, its bytes, what its pointer-like words lead to)
+    pub mem_heap: fn(&mut Rng, usize) -> (String, usize, String, Vec<(usize, String)>),
 }
 
 impl Entry {
@@ -262,6 +264,73 @@ fn mem_image_impl<T: ZooVal>(r: &mut Rng, sz: usize) -> (String, String) {
         bytes.push(unsafe { std::ptr::read_volatile(p.add(i)) });
     }
     (sx, hex(&bytes))
+}
+
+/// readable address ranges of this process
+fn readable_ranges() -> Vec<(usize, usize)> {
+    let mut v = Vec::new();
+    if let Ok(maps) = std::fs::read_to_string("/proc/self/maps") {
+        for l in maps.lines() {
+            let mut it = l.split_whitespace();
+            let (Some(range), Some(perms)) = (it.next(), it.next()) else { continue };
+            if !perms.starts_with('r') || l.contains("[vvar]") || l.contains("[vsyscall]") {
+                continue;
+            }
+            if let Some((a, b)) = range.split_once('-') {
+                if let (Ok(a), Ok(b)) = (usize::from_str_radix(a, 16), usize::from_str_radix(b, 16)) {
+                    v.push((a, b));
+                }
+            }
+        }
+    }
+    v
+}
+
+/// The object representation of a value and, conservatively, the heap behind it: every 8 byte word at an
+/// 8-aligned address that looks like the start of a heap allocation is followed (that allocation), four levels deep.
+/// Nothing here knows the type's layout: what the words mean is for the schema (and the model) to say.
+fn mem_heap_impl<T: ZooVal>(r: &mut Rng, sz: usize) -> (String, usize, String, Vec<(usize, String)>) {
+    let x = T::gen(r, sz);
+    let sx = x.sx(false);
+    let n = std::mem::size_of::<T>();
+    let base = &x as *const T as usize;
+    let read = |addr: usize, len: usize| -> Vec<u8> { (0..len).map(|i| unsafe { std::ptr::read_volatile((addr + i) as *const u8) }).collect() };
+    let obj = read(base, n);
+    let ranges = readable_ranges();
+    let mut segs: Vec<(usize, Vec<u8>)> = Vec::new();
+    let mut frontier: Vec<(usize, Vec<u8>)> = vec![(base, obj.clone())];
+    for _depth in 0..4 {
+        let mut next = Vec::new();
+        for (start, bytes) in frontier.iter() {
+            let mut off = (8 - start % 8) % 8;
+            while off + 8 <= bytes.len() {
+                let w = u64::from_le_bytes(bytes[off..off + 8].try_into().unwrap()) as usize;
+                off += 8;
+                if w < 4096 || (w >= base && w < base + n.max(1)) {
+                    continue;
+                }
+                if segs.iter().chain(next.iter()).any(|(a, _)| w == *a) || segs.len() + next.len() >= 400 {
+                    continue;
+                }
+                // only what looks like the start of a heap allocation: glibc keeps the chunk size in the word
+                // before it.  The window is that allocation, so neighbouring chunks are not swept in.
+                if w % 8 != 0 {
+                    continue;
+                }
+                let Some((_, end)) = ranges.iter().find(|(a, b)| w - 8 >= *a && w < *b) else { continue };
+                let hdr = u64::from_le_bytes(read(w - 8, 8).try_into().unwrap()) as usize;
+                let chunk = hdr & !0x7;
+                if chunk < 32 || chunk % 16 != 0 || chunk > (1 << 20) || w + chunk > *end {
+                    continue;
+                }
+                let data = read(w, chunk - 8);
+                next.push((w, data));
+            }
+        }
+        segs.extend(next.iter().cloned());
+        frontier = next;
+    }
+    (sx, base, hex(&obj), segs.into_iter().map(|(a, b)| (a, hex(&b))).collect())
 }
 
 fn intro_impl<T: ZooVal + Introspect>(name: &str, r: &mut Rng, sz: usize, ncmds: usize) -> (Vec<String>, String, String, usize) {
@@ -304,6 +373,7 @@ pub fn entry<T: ZooVal + Serialize + Deserialize + Packed + WithSchema + Introsp
         iofault: crate::iofault::iofault_case::<T>,
         encfile: crate::crypt::enc_case::<T>,
         mem_image: mem_image_impl::<T>,
+        mem_heap: mem_heap_impl::<T>,
     }
 }
 
@@ -333,6 +403,7 @@ pub fn entry_c<T: ZooVal + Serialize + Deserialize + Packed + WithSchema + Intro
         iofault: |_, _, _, _, _, _| Vec::new(),
         encfile: |_, _, _, _, _, _| Vec::new(),
         mem_image: mem_image_impl::<T>,
+        mem_heap: mem_heap_impl::<T>,
     }
 }
 
@@ -362,6 +433,7 @@ pub fn entry_ni<T: ZooVal + Serialize + Deserialize + Packed + WithSchema + 'sta
         iofault: crate::iofault::iofault_case::<T>,
         encfile: crate::crypt::enc_case::<T>,
         mem_image: mem_image_impl::<T>,
+        mem_heap: mem_heap_impl::<T>,
     }
 }
 
